@@ -27,9 +27,24 @@ any refused call leaves size and state unchanged.  Measurement randomness is
 scripted identically for all engines (`randint` of stabilizer_states,
 `np.random.choice` of qutip_simulator, `random.random` of the stand-in's
 simulator): when the reference says the outcome is forced the engine must
-return the forced value, otherwise the scripted coin.  A register that has been
-absorbed is dropped and garbage-collected, as virtual.py does
-(remote_delete_register), before the absorbing register is compared.
+return the forced value, otherwise the scripted coin.
+
+absorb / absorb_parts COPY the other register's state: the absorbed register is
+an object the caller may keep, it is unchanged by the call and independent of
+the absorbing register afterwards (in the Lean model both are values, so this
+holds by construction).  The sequences therefore keep driving BOTH registers
+after a merge (gates, measurements, removals, adds, further merges) and every
+live register is compared after every call; in about half of the merges the
+absorbed register is instead dropped and garbage-collected at once (op `del`),
+as virtual.py does (remote_delete_register): its destructor must not disturb
+the absorbing register either.
+
+`stabilizerEngine.add_qubit` takes a generator array of ANY number of qubits
+(the other two engines' add_qubit takes exactly one qubit): op `addm` adds 2-
+and 3-qubit entangled asymmetric stabilizer states at registers with 0, 1, k-1,
+k or more free slots; accepted iff it fits (noQubitError otherwise, register
+unchanged), activeQubits <= maxQubits after every call.  Tied to the Lean
+`StabEngine.addQubit` / `Reg.step (.add ls)` like the one-qubit adds.
 
 `remove_qubit` is a projective measurement in the stabilizer and projectq
 engines and a partial trace in the qutip engine; both are "delete slot j" of
@@ -88,7 +103,9 @@ ASSUMPTIONS = [
     "real packages (absent here)",
     "qubit 0 is the leftmost tensor factor; K = [[1,-i],[i,-1]]/sqrt2; T = diag(1, e^{i pi/4}); outcome 0 = +1 eigenvalue of Z",
     "positions are natural numbers (negative Python indices are not part of the interface)",
-    "a register that has been absorbed is not used again (virtual.py deletes it)",
+    "absorb / absorb_parts copy: the absorbed register stays a usable, independent register until it is deleted (virtual.py "
+    "deletes it at once; the sequences do both)",
+    "multi-qubit add_qubit is part of the stabilizer backend's interface only (qutip / projectq add_qubit: one qubit)",
 ]
 
 ENGINES = ("stab", "qutip", "projq")
@@ -217,6 +234,16 @@ STATES = {
     3: (np.array([_F, 1j * _F], dtype=complex), [[1, 1, 0]]),
     4: (np.array([_F, -_F], dtype=complex), [[1, 0, 1]]),
 }
+# multi-qubit states for stabilizerEngine.add_qubit (the only engine whose add_qubit takes more than one qubit):
+# generator arrays (x part | z part | sign), entangled and without symmetry between the slots; the reference
+# state is the projector of these generators (rho_of_generators), computed by the oracle's own code
+MSTATES = {
+    "yz": [[1, 0, 1, 1, 0], [0, 1, 1, 0, 1]],                                   # +YZ, -ZX
+    "p2": [[0, 0, 1, 0, 1], [0, 1, 0, 0, 0]],                                   # |1>|+> (product, asymmetric)
+    "bell": [[1, 1, 0, 0, 1], [0, 0, 1, 1, 0]],                                 # -XX, +ZZ
+    "path3": [[1, 0, 0, 0, 1, 0, 0], [0, 1, 0, 1, 1, 1, 1], [0, 0, 1, 0, 1, 0, 0]],   # +XZI, -ZYZ, +IZX
+    "ghz3": [[1, 1, 1, 0, 0, 0, 0], [0, 0, 0, 1, 1, 0, 1], [0, 0, 0, 0, 1, 1, 0]],    # +XXX, -ZZI, +IZZ
+}
 
 
 def apply_u(rho, n, u, pos):
@@ -258,6 +285,11 @@ class Ref:
         v = STATES[0][0] if vec is None else vec
         self.rho = np.kron(self.rho, np.outer(v, v.conj()))
         self.labels.append(label)
+
+    def add_rho(self, labels, rho):
+        """several new slots at the end, in the joint state `rho`"""
+        self.rho = np.kron(self.rho, rho)
+        self.labels += list(labels)
 
     def gate(self, u, pos):
         self.rho = apply_u(self.rho, self.n, u, pos)
@@ -536,7 +568,10 @@ def gen_sequence(rng, maxlen=12):
             seq.append(_merge_op(rng, r, o))
             if size[r] + size[o] <= mx[r]:
                 size[r] += size[o]
-                del size[o], mx[o]
+                if rng.random() < 0.5:
+                    # what virtual.py does next; otherwise the absorbed register stays in use (absorb copies)
+                    seq.append(["del", o])
+                    del size[o], mx[o]
     return seq
 
 
@@ -575,20 +610,77 @@ def gen_scenario(rng, maxlen=12):
         pre.append(["g2", dst, "CNOT", 0, 1])
     seq += (body + pre) if rng.random() < 0.5 else (pre + body)
     seq.append(_merge_op(rng, dst, src))
-    n = d + k
-    while sum(1 for op in seq if op[0] != "new") < maxlen:
-        x = rng.random()
-        if x < 0.45:
-            seq.append([rng.choice(["mi", "md", "rm"]), dst, rng.randrange(n), rng.randrange(2)])
-            if seq[-1][0] != "mi":
-                n -= 1
-        elif x < 0.7 and n >= 2:
-            c, t = rng.sample(range(n), 2)
-            seq.append(["g2", dst, rng.choice(list(G2)), c, t])
-        else:
-            seq.append(["g1", dst, rng.choice(CLIFFORD1), rng.randrange(n)])
-        if n == 0:
+    fits = d + k <= min(dmax, 6)
+    sz = {dst: d + k if fits else d, src: k}
+    x = rng.random()
+    if fits and x < 0.4:
+        seq.append(["del", src])          # virtual.py's use: the absorbed register is deleted at once
+        del sz[src]
+    # otherwise BOTH registers stay in use: the absorbed one is an object the caller may have kept, absorb copied its state
+    while sum(1 for op in seq if op[0] not in ("new", "del")) < maxlen:
+        live = [q for q in sorted(sz) if sz[q] > 0]
+        if not live:
             break
+        r = src if (src in live and rng.random() < 0.55) else rng.choice(live)
+        n = sz[r]
+        x = rng.random()
+        if x < 0.40:
+            seq.append([rng.choice(["mi", "md", "rm"]), r, rng.randrange(n), rng.randrange(2)])
+            if seq[-1][0] != "mi":
+                sz[r] -= 1
+        elif x < 0.65 and n >= 2:
+            c, t = rng.sample(range(n), 2)
+            seq.append(["g2", r, rng.choice(list(G2)), c, t])
+        elif x < 0.72 and r == src and src in sz:
+            seq.append(["add", src])      # growing the absorbed register afterwards (its limit permitting)
+            sz[src] += 1                  # (an over-full add is refused; the prediction is then one too high: harmless)
+        elif x < 0.76 and len(sz) == 2 and src in sz:
+            seq.append(["del", src])
+            del sz[src]
+        else:
+            seq.append(["g1", r, rng.choice(CLIFFORD1), rng.randrange(n)])
+    return seq
+
+
+def gen_multiadd(rng):
+    """stabilizerEngine.add_qubit with 1-, 2- and 3-qubit states at a register with 0, 1, k-1, k (or more) free slots,
+    then the register is used further (the added slots are entangled with each other and get entangled with the rest)"""
+    seq = []
+    name = rng.choice(list(MSTATES))
+    k = len(MSTATES[name])
+    mx = rng.choice([k, k + 1, k + 2, 4, 5, 6]) if rng.random() < 0.9 else rng.choice([0, 1, 2])
+    free = rng.choice([0, 1, k - 1, k, k, k, k + 1, k + 2])
+    fill = max(0, min(mx, mx - free))
+    seq.append(["new", 0, mx])
+    n = 0
+    for _ in range(fill):
+        seq.append(["add", 0] if rng.random() < 0.6 else ["addst", 0, rng.choice(list(STATES))])
+        n += 1
+    if n >= 1 and rng.random() < 0.7:
+        seq.append(["g1", 0, rng.choice(["H", "K"]), rng.randrange(n)])
+    if n >= 2 and rng.random() < 0.7:
+        seq.append(["g2", 0, rng.choice(list(G2))] + rng.sample(range(n), 2))
+    for rnd in range(rng.choice([1, 1, 2])):
+        nm = name if rnd == 0 else rng.choice(list(MSTATES))
+        if rnd and rng.random() < 0.5 and n:
+            seq.append([rng.choice(["md", "rm"]), 0, rng.randrange(n), rng.randrange(2)])
+            n -= 1
+        seq.append(["addm", 0, nm])
+        if n + len(MSTATES[nm]) <= mx:
+            n += len(MSTATES[nm])
+        if rng.random() < 0.3:
+            seq.append(["addst", 0, rng.choice(list(STATES))])      # one-qubit add_qubit at the same boundary
+            n += 1 if n < mx else 0
+        for _ in range(rng.randint(1, 3)):
+            x = rng.random()
+            if n >= 2 and x < 0.4:
+                seq.append(["g2", 0, rng.choice(list(G2))] + rng.sample(range(n), 2))
+            elif n >= 1 and x < 0.7:
+                seq.append(["g1", 0, rng.choice(CLIFFORD1), rng.randrange(n)])
+            elif n >= 1:
+                seq.append([rng.choice(["mi", "md", "rm"]), 0, rng.randrange(n), rng.randrange(2)])
+                if seq[-1][0] != "mi":
+                    n -= 1
     return seq
 
 
@@ -609,16 +701,19 @@ def run_sequence(ename, seq, rec=None):
     basics = L["basics"]
     engs, refs = {}, {}
     label = itertools.count()
-    stats = {"ok": 0, "refused": 0, "random": 0, "forced": 0, "entangled_absorb": 0, "maxq": 0}
+    stats = {"ok": 0, "refused": 0, "random": 0, "forced": 0, "entangled_absorb": 0, "maxq": 0, "after_absorb_src": 0,
+             "after_absorb_dst": 0, "into_empty": 0, "multi_add_ok": 0, "multi_add_refused": 0}
+    absorbed, absorber = set(), set()     # registers that have been a source / a target of a successful merge and live on
 
     def fail(step, what, key):
         raise Failure("%s:%s" % (ename, key), "%s backend: %s (call #%d %r)" % (ename, what, step, seq[step]), step)
 
-    def check_states(step, which=None):
-        for rid in sorted(engs) if which is None else which:
+    def check_states(step, called=None):
+        for rid in sorted(engs):
             e, ref = engs[rid], refs[rid]
+            hint = "" if called in (None, rid) else " [the call was made on register %d: the two are not independent]" % called
             if int(e.activeQubits) != ref.n:
-                fail(step, "register %d has activeQubits = %d, contract says %d" % (rid, e.activeQubits, ref.n), "size")
+                fail(step, "register %d has activeQubits = %d, contract says %d%s" % (rid, e.activeQubits, ref.n, hint), "size")
             try:
                 n, rho = ad.rho(e)
             except Exception as ex:       # noqa: BLE001
@@ -626,8 +721,8 @@ def run_sequence(ename, seq, rec=None):
             if n != ref.n:
                 fail(step, "register %d exports %d qubits, contract says %d" % (rid, n, ref.n), "size")
             if n and np.max(np.abs(rho - ref.rho)) > TOL:
-                fail(step, "state of register %d differs from the reference on the same slot order (max |d rho| = %.3g)" % (
-                    rid, float(np.max(np.abs(rho - ref.rho)))), "state")
+                fail(step, "state of register %d differs from the reference on the same slot order (max |d rho| = %.3g)%s" % (
+                    rid, float(np.max(np.abs(rho - ref.rho))), hint), "state")
             stats["maxq"] = max(stats["maxq"], n)
 
     for step, op in enumerate(seq):
@@ -641,6 +736,17 @@ def run_sequence(ename, seq, rec=None):
         rid = op[1]
         if rid not in engs:
             continue                      # (shrunk sequences) register no longer exists
+        if kind == "del":
+            # what virtual.py does with an absorbed register (remote_delete_register): the object is dropped and
+            # collected; its destructor must not disturb any other register
+            del engs[rid], refs[rid]
+            absorbed.discard(rid)
+            absorber.discard(rid)
+            gc.collect()
+            check_states(step)
+            continue
+        if kind == "addm" and ename != "stab":
+            continue                      # add_qubit of the other engines takes exactly one qubit
         e, ref = engs[rid], refs[rid]
         n = ref.n
         pre = ad.dump(e) if (rec is not None and ename == "stab") else None
@@ -649,7 +755,6 @@ def run_sequence(ename, seq, rec=None):
         ptr = []
         exp = None                        # ("ok", value) | ("err", class name or None = any exception)
         newref = ref.copy()
-        drop_other = False
         call = None
         if kind == "add":
             if n >= ref.max:
@@ -665,6 +770,14 @@ def run_sequence(ename, seq, rec=None):
                 exp = ("ok", n)
                 newref.add(next(label), STATES[op[2]][0])
             call = lambda: ad.add_state(e, op[2])                                # noqa: E731
+        elif kind == "addm":
+            gens = MSTATES[op[2]]
+            if n + len(gens) > ref.max:
+                exp = ("err", "noQubitError")
+            else:
+                exp = ("ok", n)
+                newref.add_rho([next(label) for _ in gens], rho_of_generators(gens))
+            call = lambda: e.add_qubit([list(r) for r in MSTATES[op[2]]])        # noqa: E731
         elif kind == "g1":
             g, j = op[2], op[3]
             if g == "T" and ad.clifford_only:
@@ -717,7 +830,6 @@ def run_sequence(ename, seq, rec=None):
                 if _entangled(oref):
                     stats["entangled_absorb"] += 1
                 newref.absorb(oref)
-                drop_other = True
             if kind == "abs":
                 call = lambda: e.absorb(other)                                   # noqa: E731
             else:
@@ -743,13 +855,23 @@ def run_sequence(ename, seq, rec=None):
                 fail(step, "%s raised %s: %s where the contract succeeds" % (_mname(op), obs[1], obs[2]),
                      "%s:raises-%s" % ("measure" if kind in ("mi", "md") else kind, obs[1]))
             val = obs[1]
-            if kind in ("add", "addst") and val != exp[1]:
+            if kind in ("add", "addst", "addm") and val != exp[1]:
                 fail(step, "%s returned %r, contract says the old size %r" % (_mname(op), val, exp[1]), "%s:return" % kind)
             if kind in ("mi", "md") and (isinstance(val, bool) or val != exp[1]):
                 fail(step, "%s returned %r, reference outcome (scripted coin %r) is %r" % (_mname(op), val, op[3], exp[1]), "%s:outcome" % kind)
             if kind in ("g1", "g2", "rm", "abs", "absp") and val is not None:
                 fail(step, "%s returned %r instead of None" % (_mname(op), val), "%s:return" % kind)
             stats["ok"] += 1
+            if kind in ("abs", "absp"):
+                if oref.n:
+                    absorbed.add(op[2])
+                    absorber.add(rid)
+                    stats["into_empty"] += int(n == 0)
+            else:
+                # calls made on one of two registers that were merged while BOTH are still alive
+                stats["after_absorb_src"] += int(rid in absorbed and any(q in engs for q in absorber if q != rid))
+                stats["after_absorb_dst"] += int(rid in absorber and any(q in engs for q in absorbed if q != rid))
+                stats["multi_add_ok"] += int(kind == "addm")
         else:
             if obs[0] == "ok":
                 fail(step, "%s succeeded where the contract refuses (%s)" % (_mname(op), exp[1] or "no such slot"), "%s:not-refused" % kind)
@@ -758,22 +880,23 @@ def run_sequence(ename, seq, rec=None):
                 if type(obs[2]) is not cls:
                     fail(step, "%s raised %s, contract says %s" % (_mname(op), obs[1], exp[1]), "%s:error-kind-%s" % (kind, obs[1]))
             stats["refused"] += 1
+            stats["multi_add_refused"] += int(kind == "addm")
             newref = ref                   # refused call: nothing changes
-            drop_other = False
 
+        # absorb / absorb_parts COPY the other register's state: the absorbed register (refs[op[2]]) is unchanged by
+        # the call, stays usable and is independent of the absorbing one from here on (it is compared below and
+        # driven further by the sequence until a `del`)
         refs[rid] = newref
-        if drop_other:
-            # virtual.py deletes the absorbed register; its destructor must not disturb the absorbing one
-            del engs[op[2]], refs[op[2]]
-            other = call = None
-            gc.collect()
+        other = call = None
+        if int(e.activeQubits) > int(e.maxQubits):
+            fail(step, "register %d holds %d qubits with maxQubits = %d" % (rid, e.activeQubits, e.maxQubits), "over-limit")
         if rec is not None:
             rec.append({"engine": ename, "op": op, "obs": obs[:2], "pre": pre, "pre2": pre2,
                         "post": ad.dump(e) if pre is not None else None, "pre_book": pre_book, "pre2_book": pre2_book,
                         "post_book": ad.book(e), "ptrace": ptr, "bits": bits, "spec_pre": (ref.max, list(ref.labels)),
                         "spec_pre2": (oref.max, list(oref.labels)) if oref is not None else None,
                         "spec_post": list(newref.labels), "exp": exp})
-        check_states(step)
+        check_states(step, rid if kind not in ("abs", "absp") else None)
     engs.clear()
     gc.collect()
     return stats
@@ -795,9 +918,13 @@ def _entangled(ref):
 
 
 def _mname(op):
-    return {"add": "add_fresh_qubit", "addst": "add_qubit", "g1": "apply_%s" % (op[2],), "g2": "apply_%s" % (op[2],),
-            "mi": "measure_qubit_inplace", "md": "measure_qubit", "rm": "remove_qubit", "abs": "absorb",
-            "absp": "get_register_RI + absorb_parts"}[op[0]]
+    k = op[0]
+    if k in ("g1", "g2"):
+        return "apply_%s" % (op[2],)
+    if k == "addm":
+        return "add_qubit (%d-qubit state %s)" % (len(MSTATES[op[2]]), op[2])
+    return {"add": "add_fresh_qubit", "addst": "add_qubit", "mi": "measure_qubit_inplace", "md": "measure_qubit",
+            "rm": "remove_qubit", "abs": "absorb", "absp": "get_register_RI + absorb_parts"}[k]
 
 
 _PT = {}
@@ -879,6 +1006,9 @@ def stab_line(r):
     if k == "addst":
         rows = ["".join(str(int(b)) for b in row) for row in STATES[op[2]][1]]
         return "stab add_qubit | %s | %s" % (_st(r["pre"]), " ".join(rows))
+    if k == "addm":
+        rows = ["".join(str(int(b)) for b in row) for row in MSTATES[op[2]]]
+        return "stab add_qubit | %s | %s" % (_st(r["pre"]), " ".join(rows))
     if k == "g1":
         if op[2] == "T":
             return "stab unsupported T %d | %s" % (op[3], _st(r["pre"]))
@@ -899,7 +1029,7 @@ def stab_obs(r):
     obs, op = r["obs"], r["op"]
     if obs[0] == "err":
         return "err " + ERRNAME.get(obs[1], obs[1])
-    if op[0] in ("add", "addst"):
+    if op[0] in ("add", "addst", "addm"):
         return "ok num %d" % obs[1]
     if op[0] in ("mi", "md"):
         return "ok bit %d" % obs[1]
@@ -915,6 +1045,9 @@ def spec_line(r):
         # the new slot's label is the one the reference handed out (any label if the call was refused)
         new = [x for x in r["spec_post"] if x not in ls]
         return "spec add %d%s" % (new[0] if new else 999, tail)
+    if k == "addm":
+        new = [x for x in r["spec_post"] if x not in ls] or [999 - i for i in range(len(MSTATES[op[2]]))]
+        return "spec add %s%s" % (" ".join(str(x) for x in new), tail)
     if k == "g1":
         if op[2] == "T" and r["engine"] == "stab":
             return "spec unsupported" + tail
@@ -934,7 +1067,7 @@ def spec_obs(r):
     if exp[0] == "err":
         kind = {"noQubitError": "noQubit", "quantumError": "quantum"}.get(exp[1], "refused")
         return "err %s | %s" % (kind, _labels(r["spec_pre"][1]))
-    res = "num %d" % exp[1] if k in ("add", "addst") else ("bit" if k in ("mi", "md") else "unit")
+    res = "num %d" % exp[1] if k in ("add", "addst", "addm") else ("bit" if k in ("mi", "md") else "unit")
     return "ok %s | %s" % (res, _labels(r["spec_post"]))
 
 
@@ -1053,14 +1186,25 @@ def asym(rid):
 
 FIXED = [
     # absorb / export into an EMPTY register, source entangled and asymmetric
-    [["new", 0, 4], ["new", 1, 4]] + asym(1) + [["abs", 0, 1], ["mi", 0, 1, 1], ["mi", 0, 2, 0]],
-    [["new", 0, 4], ["new", 1, 4]] + asym(1) + [["absp", 0, 1], ["md", 0, 0, 1], ["mi", 0, 0, 0]],
+    [["new", 0, 4], ["new", 1, 4]] + asym(1) + [["abs", 0, 1], ["del", 1], ["mi", 0, 1, 1], ["mi", 0, 2, 0]],
+    [["new", 0, 4], ["new", 1, 4]] + asym(1) + [["absp", 0, 1], ["del", 1], ["md", 0, 0, 1], ["mi", 0, 0, 0]],
     # ... into a NON-EMPTY register
-    [["new", 0, 6], ["add", 0], ["g1", 0, "H", 0], ["new", 1, 3]] + asym(1) + [["abs", 0, 1], ["md", 0, 2, 1]],
-    [["new", 0, 6], ["add", 0], ["g1", 0, "K", 0], ["new", 1, 3]] + asym(1) + [["absp", 0, 1], ["rm", 0, 1, 0]],
+    [["new", 0, 6], ["add", 0], ["g1", 0, "H", 0], ["new", 1, 3]] + asym(1) + [["abs", 0, 1], ["del", 1], ["md", 0, 2, 1]],
+    [["new", 0, 6], ["add", 0], ["g1", 0, "K", 0], ["new", 1, 3]] + asym(1) + [["absp", 0, 1], ["del", 1], ["rm", 0, 1, 0]],
     # ... with the exported bit positions in another order (same state, another encoding)
-    [["new", 0, 4], ["new", 1, 4]] + asym(1) + [["absp", 0, 1, [2, 0, 1, 3, 4, 5]], ["md", 0, 0, 1], ["mi", 0, 0, 0]],
-    [["new", 0, 6], ["add", 0], ["g1", 0, "K", 0], ["new", 1, 3]] + asym(1) + [["absp", 0, 1, [1, 2, 0, 3, 4, 5]], ["rm", 0, 1, 0]],
+    [["new", 0, 4], ["new", 1, 4]] + asym(1) + [["absp", 0, 1, [2, 0, 1, 3, 4, 5]], ["del", 1], ["md", 0, 0, 1], ["mi", 0, 0, 0]],
+    [["new", 0, 6], ["add", 0], ["g1", 0, "K", 0], ["new", 1, 3]] + asym(1) + [["absp", 0, 1, [1, 2, 0, 3, 4, 5]], ["del", 1], ["rm", 0, 1, 0]],
+    # absorb COPIES: the absorbed register stays an object of its own; both are driven further and must stay independent
+    [["new", 0, 4], ["new", 1, 4]] + asym(1) + [["abs", 0, 1], ["g1", 1, "Z", 0], ["md", 1, 1, 1], ["g1", 0, "X", 0],
+                                                 ["rm", 0, 2, 0], ["add", 1], ["g2", 1, "CNOT", 2, 0], ["mi", 0, 0, 1]],
+    [["new", 0, 4], ["new", 1, 4]] + asym(1) + [["absp", 0, 1], ["g1", 1, "K", 2], ["rm", 1, 0, 1], ["g2", 0, "CPHASE", 0, 1],
+                                                 ["md", 0, 1, 0], ["mi", 1, 0, 1]],
+    [["new", 0, 6], ["add", 0], ["g1", 0, "H", 0], ["new", 1, 3]] + asym(1) + [["abs", 0, 1], ["g1", 1, "Y", 1], ["md", 1, 2, 0],
+                                                                                ["g2", 0, "CNOT", 0, 3], ["mi", 0, 2, 1]],
+    [["new", 0, 6], ["new", 1, 3]] + asym(1) + [["abs", 0, 1], ["abs", 0, 1], ["g1", 1, "H", 0], ["md", 0, 4, 1], ["del", 1],
+                                                 ["mi", 0, 0, 0]],
+    [["new", 0, 2], ["new", 1, 2], ["add", 1], ["g1", 1, "H", 0], ["abs", 0, 1], ["add", 0], ["g2", 0, "CNOT", 0, 1], ["mi", 1, 0, 1],
+     ["mi", 0, 1, 0]],
     # absorbing an EMPTY register
     [["new", 0, 3], ["add", 0], ["g1", 0, "H", 0], ["new", 1, 2], ["abs", 0, 1], ["mi", 0, 0, 1]],
     [["new", 0, 3], ["add", 0], ["g1", 0, "H", 0], ["new", 1, 2], ["absp", 0, 1], ["mi", 0, 0, 1]],
@@ -1070,6 +1214,15 @@ FIXED = [
     [["new", 0, 2], ["add", 0], ["add", 0], ["add", 0], ["addst", 0, 2], ["g1", 0, "H", 1]],
     [["new", 0, 0], ["add", 0], ["addst", 0, 1]],
     [["new", 0, 2], ["add", 0], ["new", 1, 2], ["add", 1], ["add", 1], ["abs", 0, 1], ["absp", 0, 1], ["g2", 1, "CNOT", 1, 0]],
+    # add_qubit with 2- and 3-qubit states (stabilizer backend) at 0, 1, k-1, k free slots
+    [["new", 0, 3], ["add", 0], ["add", 0], ["g1", 0, "H", 0], ["g2", 0, "CNOT", 0, 1], ["addm", 0, "yz"], ["addst", 0, 3],
+     ["addm", 0, "yz"]],
+    [["new", 0, 4], ["addst", 0, 1], ["addm", 0, "path3"], ["g2", 0, "CNOT", 2, 0], ["addm", 0, "p2"], ["md", 0, 1, 1],
+     ["addm", 0, "bell"], ["addm", 0, "ghz3"]],
+    [["new", 0, 4], ["add", 0], ["add", 0], ["addm", 0, "ghz3"], ["addm", 0, "yz"], ["g2", 0, "CPHASE", 3, 0], ["addm", 0, "p2"],
+     ["mi", 0, 2, 1]],
+    [["new", 0, 3], ["addm", 0, "path3"], ["addm", 0, "bell"], ["rm", 0, 1, 0], ["addm", 0, "bell"], ["addm", 0, "p2"]],
+    [["new", 0, 1], ["addm", 0, "yz"], ["add", 0], ["addm", 0, "yz"]],
     # missing slots
     [["new", 0, 3], ["add", 0], ["rm", 0, 1, 0], ["mi", 0, 1, 0], ["md", 0, 1, 0], ["g1", 0, "X", 1], ["g2", 0, "CNOT", 0, 0],
      ["g2", 0, "CNOT", 0, 1], ["rm", 0, 0, 0], ["rm", 0, 0, 0]],
@@ -1135,10 +1288,12 @@ def run(ctx):
     res = core.Result()
     res.rule = ("call sequences of <= 12 calls over <= 3 registers with maxQubits 0..6 (new register, add_fresh_qubit, add_qubit in "
                 "|0>,|1>,|+>,|+i>,|->, apply_X/Y/Z/H/K/T, apply_CNOT/CPHASE on random ordered pairs, measure_qubit_inplace, "
-                "measure_qubit, remove_qubit with a scripted coin, absorb, get_register_RI -> absorb_parts; ~7%% invalid positions, "
+                "measure_qubit, remove_qubit with a scripted coin, absorb, get_register_RI -> absorb_parts, after which BOTH registers "
+                "are driven further or the absorbed one is deleted (50/50); stabilizer backend: add_qubit of 2-/3-qubit entangled "
+                "states at 0, 1, k-1, k, >k free slots; ~7%% invalid positions, "
                 "full registers and over-full merges arise from the small limits), the SAME sequence on all three engines, "
                 "+ %d fixed sequences (absorb/export of an entangled asymmetric 3-qubit state into empty / non-empty registers, "
-                "absorbing an empty register, limits, missing slots); after every call every live register is compared with the "
+                "continuing on both registers afterwards, absorbing an empty register, limits incl. multi-qubit adds, missing slots); after every call every live register is compared with the "
                 "density-matrix reference.  non-trivial = a sequence that reaches >= 2 qubits in one register" % len(FIXED))
     replay = getattr(ctx, "replay", None)
     if replay and isinstance(replay.get("input"), dict) and replay["input"].get("seq"):
@@ -1148,7 +1303,9 @@ def run(ctx):
         nseq = ctx.scale(300, 5000)
         seqs = [list(s) for s in FIXED] + [gen_scenario(ctx.rng) if ctx.rng.random() < 0.4 else gen_sequence(ctx.rng)
                                            for _ in range(nseq)]
-        jobs = [(e, s) for s in seqs for e in ENGINES]
+        seqs += [gen_multiadd(ctx.rng) for _ in range(ctx.scale(60, 1000))]
+        # multi-qubit add_qubit exists in the stabilizer backend only
+        jobs = [(e, s) for s in seqs for e in ENGINES if e == "stab" or not any(op[0] == "addm" for op in s)]
     recs = []
     seen_keys = set()
     want_rec = bool(ctx.lean_ok)
@@ -1182,7 +1339,8 @@ def run(ctx):
                     continue
                 res.case({"engine": ename, "seq": seq}, nontrivial=stats["maxq"] >= 2)
                 res.count("sequences:" + ename)
-                for k in ("ok", "refused", "random", "forced", "entangled_absorb"):
+                for k in ("ok", "refused", "random", "forced", "entangled_absorb", "after_absorb_src", "after_absorb_dst",
+                          "into_empty", "multi_add_ok", "multi_add_refused"):
                     res.count("calls:%s:%s" % (ename, k), stats[k])
                 res.count("maxqubits:%d" % stats["maxq"])
                 for op in seq:
@@ -1211,6 +1369,8 @@ def run(ctx):
         res.notes.append("stand-ins validated by the repo's engine tests executed against them: %d ran "
                          "(test_qutip_engine.py 3, test_project_q_engine.py 34), %d passed; their fidelity to real qutip / "
                          "projectq is an assumption" % (ran, ran - len(failed)))
+    res.notes.append("multi-qubit add_qubit (op addm) runs on the stabilizer backend only and IS mirrored in the Lean tie "
+                     "(`stab add_qubit | E | rows`, `spec add l1 l2 ..`); sequences containing it are not run on qutip / projectq")
     res.notes.append("remove_qubit: projective measurement (stabilizer, projectq) vs partial trace (qutip): the reference follows "
                      "the engine's unravelling; both equal 'delete slot j' at ensemble level")
     return res
